@@ -82,12 +82,19 @@ def generate(seed, tier):
                 c = mk(script + [['ok']] * 3, 2, 1, codes, excs, 'client', 'notification', rnd)
                 c['async'] = is_async
                 cases.append(c)
+    # a lenient client (strict=False) whose notification is answered with a body carrying a listed code: nothing to retry
+    for script in ([['nbody', LISTED_CODE]], [['nbody', LISTED_CODE], ['ok']], [['exc', 0], ['nbody', LISTED_CODE], ['ok']]):
+        for is_async in (False, True):
+            c = mk(script + [['ok']] * 3, 2, 1, [LISTED_CODE], [0], 'client', 'notification', rnd)
+            c['async'], c['lenient'] = is_async, True
+            cases.append(c)
     # batches: batch-level listed error retried, a failed ELEMENT is not
     for script in ([['code', LISTED_CODE], ['ok']], [['elemerr', LISTED_CODE], ['ok']], [['code', LISTED_CODE], ['elemerr', LISTED_CODE], ['ok']]):
         for is_async in (False, True):
             c = mk(script + [['ok']] * 2, 2, 3, [LISTED_CODE], None, 'client', 'batch', rnd)
             c['async'] = is_async
             cases.append(c)
+            cases.append(dict(c, bstrict=False))        # a hand-built BatchRequest(strict=False)
     # a third of the cases: the same client and strategy objects have already served a request that used up its retries
     for i, c in enumerate(cases):
         if i % 3 == 0:
